@@ -52,7 +52,8 @@ def run(ctx):
              "of the key it touched, every sequence ends with a dump of all its keys); non-trivial = the observed collection is non-empty; "
              "distinct by hash of (sequence, step, key, observation). Inputs: corpus/C09+C08, random sequences over adversarial pools "
              "(tables t,t2,tt; keys incl. ':' inside, \\x00, \\xff, 8/9/17 bytes; repeated members inside one command; int64 and 2^53 edges), "
-             "exhaustive short sequences over a tiny alphabet; apply modes: one entry per call, shared batch operator, multi-request list",
+             "exhaustive short sequences over a tiny alphabet; apply modes: one entry per call, shared batch operator, multi-request list; "
+             "every sequence ends with the table key counters, compared with the number of keys its final dump enumerates",
         histogram=_data.histogram(runs),
         mismatches=len(all_mism),
         samples=samples[:6],
